@@ -4,6 +4,6 @@ CONSTANTS
   ChanCap = 2
 SPECIFICATION ASpec
 CONSTRAINT QueueSmall
-INVARIANTS TwoParts TypeOK AtMostOnePlotting PlottingIsCurrent PendingKnown
+INVARIANTS TwoParts MinerOverKeeper TypeOK AtMostOnePlotting PlottingIsCurrent PendingKnown
 PROPERTIES StopAllQuiets MineStartsMiner MinerOffOnlyByStop LockRefusedWhileMining KeeperStartsUnlocked
 CHECK_DEADLOCK FALSE
